@@ -337,6 +337,7 @@ pub fn step(ctx: &BuildContext<TestBp>, layers: &Path, scratch: &Path, names: &[
                                     let src = scratch.join(format!("src_{opi}_{wi}_{pi}"));
                                     if !p[1].is_null() {
                                         std::fs::write(&src, bytes_of(&p[1][1])).unwrap();
+                                        crate::util::age_source(&src);
                                         std::fs::set_permissions(&src, std::fs::Permissions::from_mode(u32::try_from(p[1][0].as_u64().unwrap()).unwrap())).unwrap();
                                     }
                                     progs.push((string_of(&p[0]), src));
